@@ -1,9 +1,87 @@
-(* C12/Properties.v — property theorems only. *)
+(* C12/Properties.v — property theorems only: statement, `exact`, Print Assumptions. *)
 From Coq Require Import ZArith List Bool.
-From C12 Require Import Generated Model Proofs.
+From C12 Require Import Generated Model Env Proofs Refuted.
 Import ListNotations.
 Open Scope Z_scope.
 
-Theorem C12_skip_space_progress : forall E ign s, (length (skip_space E ign s) <= length s)%nat.
-Proof. exact skip_space_le. Qed.
-Print Assumptions C12_skip_space_progress.
+(* T12.lex — progress of the lexer.  For EVERY character classification, number syntax and operator
+   table (env), every text suffix s and flags: with fuel linear in the remaining length kg_read is never
+   out of fuel, the index never moves back, a token means at least one character was consumed and
+   "no token" means the end of the text was reached.  (';' must be in kg_read's delimiter list: a newline
+   is read as ';'.) *)
+Theorem C12_lexer_progress : forall E, z_in 59 (delims E) = true ->
+  forall fuel rn ign s, (fuel >= 6 * length s + 2)%nat ->
+  match kg_read E fuel rn ign s with
+  | Ok p => (length (fst p) <= length s)%nat /\
+            (is_none (snd p) = false -> (length (fst p) < length s)%nat) /\
+            (is_none (snd p) = true -> fst p = [])
+  | Err _ => True
+  | OOF => False
+  end.
+Proof. exact kg_read_total_explicit. Qed.
+Print Assumptions C12_lexer_progress.
+
+(* T12.total — parsing terminates on every text: with fuel 6*(|t|+1) (fuel = depth of calls and loop
+   iterations) prog returns a program or an error, never OutOfFuel, and the returned index is inside
+   the text.  Holds for every env whose marker loop in read_sys_comment is guarded. *)
+Theorem C12_prog_total : forall E, z_in 59 (delims E) = true -> comment_guard E = true ->
+  forall t fuel, (fuel >= fuel_for (length t))%nat ->
+  match prog E fuel t with
+  | Ok p => (length (fst p) <= length t)%nat
+  | Err _ => True
+  | OOF => False
+  end.
+Proof. exact prog_total_explicit. Qed.
+Print Assumptions C12_prog_total.
+
+(* the same for the environment regenerated from /repo on this run: type-checks only while the
+   translator finds the guard `while a and …` and ';' among kg_read's delimiters *)
+Theorem C12_prog_total_generated : forall t, prog genv (fuel_for (length t)) t <> OOF.
+Proof.
+  exact (prog_never_oof genv (eq_refl : z_in 59 (delims genv) = true) (eq_refl : comment_guard genv = true)).
+Qed.
+Print Assumptions C12_prog_total_generated.
+
+(* T12.mono — more fuel never changes a result that is not OutOfFuel (every env, guarded or not) *)
+Theorem C12_fuel_monotone : forall E f f' t r, (f <= f')%nat -> prog E f t = r -> r <> OOF -> prog E f' t = r.
+Proof. exact prog_mono. Qed.
+Print Assumptions C12_fuel_monotone.
+
+(* T12.pure — the result of parsing is a function of the text (and the env) alone: beyond the linear
+   bound the fuel is irrelevant, so "the parse of t" is well defined and parsing again gives it again *)
+Theorem C12_parse_well_defined : forall E, z_in 59 (delims E) = true -> comment_guard E = true ->
+  forall t fuel, (fuel >= fuel_for (length t))%nat -> prog E fuel t = prog E (fuel_for (length t)) t.
+Proof. exact prog_fuel_irrelevant. Qed.
+Print Assumptions C12_parse_well_defined.
+
+(* T12.comment_refuted (R6, repaired in /repo by `fix: .comment("") no longer hangs the parser`):
+   without the guard the marker loop of read_sys_comment never ends for the empty marker, whatever the fuel *)
+Theorem C12_unguarded_comment_refuted : forall E, comment_guard E = false ->
+  forall fuel s, read_sys_comment E fuel s [] = OOF.
+Proof. exact read_sys_comment_unguarded_loops. Qed.
+Print Assumptions C12_unguarded_comment_refuted.
+
+(* T12.comment_refuted on the whole parser: with the pre-fix loop (guard flag false, everything else as
+   regenerated from /repo) prog is OutOfFuel on the 12-character text  .comment("")  for EVERY fuel *)
+Theorem C12_unguarded_prog_refuted :
+  exists t, length t = 12%nat /\ forall fuel, prog (env_with_guard genv false) fuel t = OOF.
+Proof. exists r6_text. split; [reflexivity|exact r6_prog]. Qed.
+
+(* Non-vacuity: the regenerated env meets the hypotheses, and concrete texts parse / are rejected *)
+Example C12_env_example : z_in 59 (delims genv) = true /\ comment_guard genv = true.
+Proof. split; reflexivity. Qed.
+
+(* f(1;2)  *)
+Example C12_parse_example :
+  prog genv (fuel_for 6) [102; 40; 49; 59; 50; 41]
+  = Ok ([], [ACall (ASym [102]) (APy [ANum [49]; ANum [50]]) 2]).
+Proof. vm_compute. reflexivity. Qed.
+
+(* .comment("") 1   parses to [1] under the guard *)
+Example C12_comment_example :
+  prog genv (fuel_for 14) (r6_text ++ [32; 49]) = Ok ([], [ANum [49]]).
+Proof. vm_compute. reflexivity. Qed.
+
+(* {      is rejected, not a hang *)
+Example C12_reject_example : prog genv (fuel_for 1) [123] = Err EChar.
+Proof. vm_compute. reflexivity. Qed.
